@@ -338,6 +338,11 @@ def run(ctx):
             got_c = len([x for x in r["nodes"] if x["scope"] == sc and x["c"] and x["generated"] in (None, "has_default_arg", "cxx_template")])
             if want_c != got_c:
                 problems.append(("number of C entry points differs from the number of callable signatures in scope '%s'" % sc, "%d vs %d" % (got_c, want_c)))
+            # one Fortran specific per callable signature: each admissible number of trailing defaults x each fortran_generic variant
+            want_f = sum((len(f["tmpl"]) if f["tmpl"] else (f["ndef"] + 1) * (len(f["generic"]) or 1)) for f in fs if f.get("wrap", (True, True))[1])
+            got_f = len([x for x in r["nodes"] if x["scope"] == sc and x["f"]])
+            if want_f != got_f:
+                problems.append(("number of Fortran specifics differs from the number of callable signatures in scope '%s'" % sc, "%d vs %d" % (got_f, want_f)))
         for what, name in problems:
             key = classify_dup(name, scopes) if ("same name" in what or "twice" in what or "share a name" in what) else None
             fails.setdefault((key, what.split(" of module")[0]), []).append({"what": what, "name": name, "library_yaml": texts[li]})
